@@ -395,6 +395,18 @@ def numeric_counterexample(formulas, concl, model, tries=1200, seed=0):
     m = attempt(cand)
     if m is not None:
         best = ({k: str(v) for k, v in cand.items()}, m)
+    else:
+        # the solver treats ln / exp as uninterpreted: pin the symbols inside their arguments at the model's values,
+        # give the atoms their true values and ask again for the remaining symbols (then validate with true functions)
+        for _round in range(2):
+            cand2 = _refine_model(formulas, concl, cand, names, F)
+            if cand2 is None:
+                break
+            m = attempt(cand2)
+            if m is not None:
+                best = ({k: str(v) for k, v in cand2.items()}, m)
+                break
+            cand = cand2
     found = 0
     for i in range(tries):
         env = {}
@@ -421,3 +433,49 @@ def numeric_counterexample(formulas, concl, model, tries=1200, seed=0):
 
 
 LAST_DIFF = [0.0]
+
+
+def _plain_syms(v):
+    C = alg.ctx()
+    out = set()
+    for part in alg.simple_parts(v):
+        monos = list(part.n) + [part.dm]
+        for f in part.df:
+            monos += list(C.factors[f])
+        for mo in monos:
+            for t, _ in C.items(mo):
+                out.add(t)
+    return out
+
+
+def _refine_model(formulas, concl, cand, names, F):
+    C = alg.ctx()
+    atoms = [(sy, arg, "log") for sy, arg in C.logs] + [(sy, arg, "exp") for sy, arg in C.expsyms.items()]
+    if not atoms:
+        return None
+    extra, pinned = [], set()
+    symenv = {C.byname[k]: F.num(v) for k, v in cand.items()}
+    if "pi" in C.byname:
+        symenv[C.byname["pi"]] = F.pi
+    for sy, arg, kind in atoms:
+        try:
+            x = alg.evalv(arg, symenv, F)
+            val = F.log(x) if kind == "log" else F.exp(x)
+            q = Fraction(str(val)).limit_denominator(10 ** 12)
+        except Exception:
+            continue
+        for t in _plain_syms(arg):
+            if C.names[t] in cand and t not in pinned:
+                pinned.add(t)
+                extra.append(("atom", alg.v_sub(alg.Value({C.mono([(t, alg.QU)]): 1}), alg.Value.const(Fraction(cand[C.names[t]]))), "=="))
+        extra.append(("atom", alg.v_sub(alg.Value({C.mono([(sy, alg.QU)]): 1}), alg.Value.const(q)), "=="))
+    if not extra:
+        return None
+    r, model, _dt = _solve(list(formulas) + [Not(concl)] + extra, want_model=True)
+    if r != "sat" or not model:
+        return None
+    out = dict(cand)
+    for k, v in model.items():
+        if k in names:
+            out[k] = Fraction(v)
+    return out
